@@ -15,6 +15,7 @@ var tiers = map[string][3]int{
 	"C05": {1200, 20000, 0},
 	"C06": {800, 15000, 0},
 	"C12": {150, 3000, 0},
+	"C11": {800, 8000, 0},
 }
 
 func tierOf(id string, thorough bool) tierCfg {
@@ -45,5 +46,9 @@ func init() {
 	props["C12"] = propCfg{
 		Rule:        "positions: every variable occurrence of generated workspaces (as C05) and, for 5% of the cases, of a workspace taken verbatim from the repository's testdata directories. No external oracle: for position p with D = definition(p), R = references(p): every r in R must resolve to D; p must be among references(D); documentHighlight(p) must equal the members of R in p's file; hover(p) must name the identifier and start with `local` exactly when the declaration found at D is a local declaration. Non-trivial: a workspace with a queried name declared at least twice in its file; distinct by workspace text.",
 		Assumptions: append([]string{"no edits are sent in these sessions (highlight is rate-limited for 3 s after a change)", "don't-care: built-ins, self, field names; testdata files with tabs or non-ASCII text are not queried (column defects belong to C04)"}, commonAssume...),
+	}
+	props["C11"] = propCfg{
+		Rule:        "workspaces as in C05; 1-6 renameable occurrences per workspace (locals, parameters, loop variables, local functions, globals across files) are renamed to a fresh identifier of a different length. Oracle: (1) edits do not overlap, each covers exactly the old name, and the edit set equals the reference binder's occurrence class; (2) metamorphic: the edit is applied to the client's files, the result must be valid Lua whose binding graph (reference binder) is isomorphic to the original's, and a fresh server on the edited workspace must publish the original diagnostics (all checks on) with positions shifted by the edits. Non-trivial: the renamed variable has >= 2 occurrences and another variable of the same old name exists in the file; distinct by workspace text + picks.",
+		Assumptions: append([]string{refluaAssume, "new names are fresh in the workspace, not keywords or built-ins"}, commonAssume...),
 	}
 }
